@@ -23,7 +23,8 @@ RULE = ('cases = (repository, corruption list, restored snapshot): repositories 
         'corruptions = every stored chunk/snapshot object x {bit flip at boundary offsets (0, nonce-1, nonce, len-17, len-16, len-1) and '
         'sampled offsets, truncation to 0 / <nonce / <tag / len-1, extension, nonce splice, delete, swap with and replay of another '
         'object of the same and of the other kind, copy under a new name / another tag}, singly and in random pairs, plus config damage '
-        'and a snapshot-table ciphertext stored as the chunk that backs up that snapshot\'s data ciphertext (oracle only); non-trivial = the corruption touches an object the restored snapshot needs (the model predicts an error) ; '
+        'each damage to a snapshot object (and a quarter of the others) also in the variants "same command twice over one initially empty cache '
+        'directory" and "applied between the listing and the downloads", and a snapshot-table ciphertext stored as the chunk that backs up that snapshot\'s data ciphertext (oracle only); non-trivial = the corruption touches an object the restored snapshot needs (the model predicts an error) ; '
         'distinct = distinct (repository id, corruption list, target)')
 
 ERR_CODE = {0: 'Ok', 1: 'Corrupted', 2: 'DecryptFail', 3: 'Missing', 4: 'Malformed'}
@@ -155,20 +156,61 @@ def touched(spec):
 
 
 # --------------------------------------------------------------------------- worker: the implementation side
+class LateDamage:
+    """A backend front: the damage is applied right after the listing of snapshots/ has been produced, i.e. somebody
+    changes or removes objects between the moment a command lists the repository and the moment it downloads."""
+
+    def __init__(self, inner, apply):
+        self._inner, self._apply, self._done = inner, apply, False
+
+    def __getattr__(self, name):
+        return getattr(self._inner, name)
+
+    def list_files(self, prefix=''):
+        names = list(self._inner.list_files(prefix))
+        if not self._done and prefix.startswith('snapshots'):
+            self._done = True
+            self._apply()
+        return names
+
+
 def restore_case(repo, orig, case, workdir, idx):
-    objects = dict(orig)
+    mode = case.get('mode')
+    damaged = dict(orig)
     for spec in case['specs']:
-        apply_concrete(orig, objects, spec)
+        apply_concrete(orig, damaged, spec)
+    objects = dict(orig) if mode == 'late' else damaged
     if repo['backend'] == 'local':
         from replicat.backends.local import Local
         root = os.path.join(workdir, f'repo-{idx}')
         write_local(root, objects)
         be = Local(root)
+
+        def apply():
+            write_local(root, damaged)
     else:
         be = MemBackend(objects)
+
+        def apply():
+            objects.clear()
+            objects.update(damaged)
+    if mode == 'late':
+        be = LateDamage(be, apply)
+    cache = os.path.join(workdir, f'cache-{idx}') if mode == 'twice' else None
+    res = run_restore(repo, be, case, workdir, idx, cache)
+    if mode == 'twice':
+        # the very same command once more: a fresh Repository object, the cache directory the first run left behind
+        res['second'] = run_restore(repo, be, case, workdir, idx, cache)
+        shutil.rmtree(cache, ignore_errors=True)
+    if repo['backend'] == 'local':
+        shutil.rmtree(root, ignore_errors=True)
+    return res
+
+
+def run_restore(repo, be, case, workdir, idx, cache):
     dest = os.path.join(workdir, f'out-{idx}')
     cl = repolab.Client(be, password=unb64(repo['password']) if repo['password'] else None,
-                        key=unb64(repo['key']) if repo['key'] else None, cache=None)
+                        key=unb64(repo['key']) if repo['key'] else None, cache=cache)
     o = cl.restore(dest, snapshot_regex=case['target'])
     res = {'cls': o.cls, 'detail': o.detail}
     if o.cls == 'Malformed' and o.detail.startswith('ValueError') and 'once' in o.detail:
@@ -178,8 +220,6 @@ def restore_case(repo, orig, case, workdir, idx):
         tree = repolab.read_tree(dest) if os.path.isdir(dest) else {}
         res['tree'] = {p: [len(d), hashlib.sha256(d).hexdigest()] for p, d in tree.items()}
     shutil.rmtree(dest, ignore_errors=True)
-    if repo['backend'] == 'local':
-        shutil.rmtree(root, ignore_errors=True)
     return res
 
 
@@ -309,11 +349,14 @@ class Lifted:
         for c in cases:
             mods = [m for spec in c['specs'] for m in self.mods_for(spec)]
             tgt = f'Hash {self.o(c["target_loc"])}'
-            items.append('  ([' + '; '.join(f'({l}, {t})' for l, t in mods) + f'], {tgt})')
-        lines.append('Definition cases : list (list (loc * option term) * term) := [')
+            late = 'true' if c.get('mode') == 'late' else 'false'
+            items.append(f'  ({late}, [' + '; '.join(f'({l}, {t})' for l, t in mods) + f'], {tgt})')
+        lines.append('Definition cases : list (bool * list (loc * option term) * term) := [')
         lines.append(';\n'.join(items))
         lines.append('].')
-        lines.append('Eval vm_compute in map (fun c => summary (restore intended md (apply_mods st0 (fst c)) (snd c))) cases.')
+        lines.append("(* late = the damage happens after the listing was taken: the listing is the honest store's *)")
+        lines.append("Eval vm_compute in map (fun c : bool * list (loc * option term) * term => let '(late, mods, tgt) := c in let st := apply_mods st0 mods in "
+                     'summary (restore_listed intended md (snapshot_locs (if late then st0 else st)) st tgt)) cases.')
         return '\n'.join(lines) + '\n'
 
     def concretise(self, files):
@@ -377,7 +420,22 @@ def gen_cases(rng, repo, n_sampled, n_pairs):
         # (a REMOVED snapshot object is indistinguishable from a snapshot never taken: the restore does not need it)
         if (spec.get('o') == newest or spec.get('p') == newest) and not kind_of({'specs': [spec]}).startswith('delete'):
             cases.append({'specs': [spec], 'target_loc': newest, 'target': None, 'oracle_only': True})
-    return cases
+    # every damage to a snapshot object (and a quarter of the damages to chunks) also
+    #   'twice': the same command run twice over one initially empty cache directory (both runs are judged), and
+    #   'late' : applied between the listing and the downloads (the object WAS listed: a successful restore owes every file)
+    extra = []
+    for i, c in enumerate(cases):
+        if len(c['specs']) != 1:
+            continue
+        spec = c['specs'][0]
+        on_snapshot = any(str(spec.get(k, '')).startswith('snapshots/') for k in ('o', 'p', 'new'))
+        if on_snapshot or i % 4 == 0:
+            extra.append(dict(c, mode='twice'))
+            extra.append(dict(c, mode='late'))
+    for t in targets:       # removal after the listing, by name and unfiltered
+        extra.append({'specs': [{'k': 'delete', 'o': t}], 'target_loc': t, 'target': by_loc[t]['name'], 'mode': 'late'})
+    extra.append({'specs': [{'k': 'delete', 'o': newest}], 'target_loc': newest, 'target': None, 'oracle_only': True, 'mode': 'late'})
+    return cases + extra
 
 
 def config_cases(rng, repo, n):
@@ -471,37 +529,51 @@ def check_repo(ctx, rep: Report, repo, cases, with_model=True):
             m = model[mi]
             mi += 1
         nontrivial = (m is not None and m[0] != 0) or (m is None and r['cls'] != 'Ok')
-        rep.case((repo['rid'], json.dumps(case['specs'], sort_keys=True), case['target']), nontrivial=nontrivial)
+        rep.case((repo['rid'], json.dumps(case['specs'], sort_keys=True), case['target'], case.get('mode')), nontrivial=nontrivial)
         rep.sample({'repository': f'{mode}/{repo["backend"]}',
                     'corruption': [{k: (v[:28] + '...' if isinstance(v, str) and len(v) > 31 else v) for k, v in sp.items()} for sp in case['specs']],
                     'restore': (case['target'][:16] + '...') if case['target'] else 'unfiltered (newest version of every path)',
                     'implementation': r['cls'], 'model': ERR_CODE[m[0]] if m is not None else None})
-        # ---- C: the oracle
-        if r['cls'] == 'Ok':
-            tree = r['tree']
-            bad = [p for p, (ln, sh) in tree.items() if p not in want or hashlib.sha256(want[p]).hexdigest() != sh]
-            lost = [p for p in want if p not in tree] if r['reported'] else []
-            if bad or lost:
-                rep.violations.append({
-                    'what': f'restore returned normally after [{kind}] in a {mode} repository but {len(bad)} restored file(s) differ from the '
-                            f'original and {len(lost)} are missing',
-                    'signature': {'kind': kind, 'mode': mode}, 'replay': replay_obj(repo, case)})
+        variant = case.get('mode')
+        if variant:
+            rep.count('variant:' + variant)
+        runs = [('', r)] + ([(' - SECOND run of the same command over the cache directory the first run left behind', r['second'])] if 'second' in r else [])
+        when = ' applied between the listing and the downloads' if variant == 'late' else ''
+        violated = False
+        for which, rr in runs:
+            # ---- C: the oracle
+            if rr['cls'] == 'Ok':
+                tree = rr['tree']
+                bad = [p for p, (ln, sh) in tree.items() if p not in want or hashlib.sha256(want[p]).hexdigest() != sh]
+                # a snapshot that was listed is needed: success owes every file (an object removed BEFORE the listing is
+                # indistinguishable from a snapshot never taken)
+                listed = variant == 'late' and snap['location'] in repo['objects']
+                lost = [p for p in want if p not in tree] if (rr['reported'] or listed) else []
+                if bad or lost:
+                    rep.violations.append({
+                        'what': f'restore returned normally after [{kind}]{when} in a {mode} repository but {len(bad)} restored file(s) differ from the '
+                                f'original and {len(lost)} are missing{which}',
+                        'signature': {'kind': kind, 'mode': mode, 'variant': variant}, 'replay': replay_obj(repo, case)})
+                    violated = True
+                    break
+            # ---- B2: model vs implementation (the model has no cache: both runs must behave as predicted)
+            if m is None:
                 continue
-        # ---- B2: model vs implementation
-        if m is None:
+            rep.traces_validated += 1
+            mcls = ERR_CODE[m[0]]
+            single = len(case['specs']) == 1
+            agree = (mcls == rr['cls']) if single else ((mcls == 'Ok') == (rr['cls'] == 'Ok'))
+            if agree and mcls == 'Ok':
+                pred = {repolab.restored_rel(p): d for p, d in lifted.concretise(m[1]).items()}
+                got = rr['tree']
+                if {p: hashlib.sha256(d).hexdigest() for p, d in pred.items()} != {p: sh for p, (ln, sh) in got.items()}:
+                    agree = False
+            if not agree:
+                rep.disagreements.append({'what': f'[{kind}]{when} {mode}: model predicts {mcls}, implementation {rr["cls"]} ({rr["detail"][:120]}){which}',
+                                          'replay': replay_obj(repo, case)})
+                break
+        if violated:
             continue
-        rep.traces_validated += 1
-        mcls = ERR_CODE[m[0]]
-        single = len(case['specs']) == 1
-        agree = (mcls == r['cls']) if single else ((mcls == 'Ok') == (r['cls'] == 'Ok'))
-        if agree and mcls == 'Ok':
-            pred = {repolab.restored_rel(p): d for p, d in lifted.concretise(m[1]).items()}
-            got = r['tree']
-            if {p: hashlib.sha256(d).hexdigest() for p, d in pred.items()} != {p: sh for p, (ln, sh) in got.items()}:
-                agree = False
-        if not agree:
-            rep.disagreements.append({'what': f'[{kind}] {mode}: model predicts {mcls}, implementation {r["cls"]} ({r["detail"][:120]})',
-                                      'replay': replay_obj(repo, case)})
 
 
 # --------------------------------------------------------------------------- entry points
